@@ -318,9 +318,12 @@ def scan_prefix(root, words):
         i += 1
     if level["flags"] & UNSAFE_CMD_FLAGS:
         return None
-    # behind an argument of a level with args_conflicts_with_subcommands subcommand names are no valid continuation (the
-    # parser answers ArgumentConflict, not an unknown-token kind); options are: the level is judged like any other
-    return level, weak
+    # behind an argument of a level with args_conflicts_with_subcommands subcommand names are no valid continuation: the
+    # level is judged for its OPTION candidates; subcommand candidates are not judged there (third component) - complete_arg
+    # is not told the flag and still offers them; the parser answers ArgumentConflict, the value of a positional, or
+    # UnknownArgument when the positional at the counter is last(true): recorded observation, see docs/notes/C18.md
+    nosubs = bool(seen_arg and "args_conflicts_with_subcommands" in level["flags"])
+    return level, weak, nosubs
 
 
 def decode_case(case):
@@ -356,7 +359,7 @@ def accept_oracle(case, impl):
     sc = scan_prefix(root, argv[start:index])
     if sc is None:
         return None
-    level, weak = sc
+    level, weak, nosubs = sc
     word = argv[index]
     acc = {}
     ids = {}
@@ -393,6 +396,8 @@ def accept_oracle(case, impl):
                     else:
                         what = "option candidate without a leading dash"
             elif cid.startswith(b"command::"):
+                if nosubs:
+                    continue
                 s = find_sub(level, v)
                 if s is None or s["name"] != cid[9:]:
                     what = "does not name a subcommand of the level reached (%r)" % level["name"]
@@ -479,7 +484,7 @@ def accept_oracle(case, impl):
                        + ([b"-" + c.encode() for c in a.get("vsa", [])] if a.get("s") and word in (b"", b"-") else [])) \
                 else " [alias-without-primary]"
             return "visible option %r has a spelling extending %r but is not represented%s" % (a["id"], word, tag)
-    for s in level["subs"]:
+    for s in ([] if nosubs else level["subs"]):
         if s["hidden"]:
             continue
         if any(sp.startswith(word) for sp in [s["name"]] + s["va"]) and (b"command::" + s["name"]) not in seen_ids:
@@ -658,13 +663,16 @@ def order_decorate(rng, c, amap, smap, top=True):
     """explicit sort data on EVERY argument and subcommand (the model's side table is keyed by the arg id resp. the
     subcommand name: the same id / name gets the same display order and heading everywhere in one tree); small numbers, so
     that ties - which the stable sort must leave in generation order - are frequent"""
+    # the names clap generates itself keep clap's defaults (999, no heading) wherever they occur: the table cannot tell a
+    # user-defined `help` subcommand of one level from the generated one of another
     for a in c["args"]:
         if a["id"] not in amap:
-            amap[a["id"]] = (rng.randrange(0, 4), rng.choice(HEADINGS) if rng.random() < 0.25 else None)
+            amap[a["id"]] = (999, None) if a["id"] in (b"help", b"version") else \
+                (rng.randrange(0, 4), rng.choice(HEADINGS) if rng.random() < 0.25 else None)
         a["x_ord"], a["x_heading"] = amap[a["id"]]
     for sc in c["subs"]:
         if sc["name"] not in smap:
-            smap[sc["name"]] = rng.randrange(0, 4)
+            smap[sc["name"]] = 999 if sc["name"] == b"help" else rng.randrange(0, 4)
         sc["x_ord"] = smap[sc["name"]]
         order_decorate(rng, sc, amap, smap, False)
 
